@@ -2,14 +2,35 @@ from propdefs.common import *
 
 PROP = {
     "bin": "c01",
-    "coq_targets": ["theories/Isa/C01Check"],
+    "coq_targets": ["theories/Isa/C01Check", "theories/Isa/X86Proofs"],
     "n": {"quick": 2400, "thorough": 40000},
-    "theorems": ["patch_nil"],
-    "rule": "encodings enumerated from the opcode tables of harness/src/bin/c01.rs (both modes), visited in a seed-dependent order; "
-            "each with 6 boundary-biased machine states; non-trivial = accepted by the lifter; distinct by (mode, bytes)",
-    "trusted_base": [KERNEL, HARNESS_TB, "host CPU via native/x86run.c", "Isa/X86.v (ISA specification, validated against the CPU on every run)"],
-    "assumptions": [],
-    "partial": [],
-    "level_text": "differential",
-    "level_note": "",
+    "theorems": ["reg_get_set_correct", "reg_set_prefix_refuted", "of_add_correct", "of_sub_correct", "cf_sub_correct",
+                 "cf_add_correct", "sf_correct", "set_zf_den", "set_sf_den", "set_cf_den", "set_of_den", "lift_mov_reg_reg_correct", "add_reg_ops_correct", "sub_reg_ops_correct", "cmp_reg_ops_correct", "logic_reg_ops_correct", "incdec_reg_ops_correct"],
+    "rule": "instruction encodings enumerated from the opcode tables of harness/src/bin/c01.rs (mnemonic x operand size 8/16/32/64(/128) x "
+            "register/memory/immediate forms x legacy high-byte registers x rep/repne x both modes; about 5 000 forms), visited in a "
+            "seed-dependent permutation, wrapping around with fresh operands/states when n exceeds the table; each encoding with 6 "
+            "boundary-biased machine states (registers, flags, memory image, class-specific count/divisor/pointer hints); amd64 samples carry "
+            "the host CPU's result; non-trivial = encoding accepted by the lifter; distinct by (mode, bytes)",
+    "trusted_base": [KERNEL, HARNESS_TB,
+                     "the host processor (AMD EPYC) observed through native/x86run.c (state load/save via signal contexts)",
+                     "Isa/X86.v: hand transcription of the Intel SDM instruction pages -- compared with the processor inside Coq on every amd64 sample of every run",
+                     "the harness' own encoder (opcode tables): a wrong encoding shows up as a spec-vs-CPU disagreement",
+                     "Exec/Sem.v as the meaning of IL (tied to executor::Driver by C07)"],
+    "assumptions": ["flat segmentation (cs/ds/es/ss bases 0); fs/gs-relative forms not generated",
+                    "results the SDM calls undefined are not compared; PF/AF are not modelled by the lifter and not compared (PF is an input to jp/setp/cmovp)",
+                    "32-bit mode has no processor oracle on this host: x86 forms are compared with Isa/X86.v only (the same spec functions are validated through the amd64 encodings)"],
+    "partial": [
+        "theorem + syntactic tie (all states): the register access layer X86Register::get/set (all sub-register kinds, both tables) and the flag helpers set_zf/set_sf/set_of/set_cf; "
+        "syntactic tie (mirror = dumped IL, every run) for mov/add/sub/cmp/and/or/xor/inc/dec with register destination and register/immediate source; no per-form end-to-end theorem (run of the mirror = X86.step) is proved yet",
+        "processor + specification comparison on sampled states only ([D]): every other accepted form of the core classes (ALU incl. adc/sbb/test/neg/not, all memory forms, movzx/movsx/movsxd/lea/xchg/push/pop/call/ret/leave, jmp/jcc/setcc/cmovcc/loop/jecxz, shl/shr/sar/rol/ror, mul/imul/div/idiv, cbw..cqo, bt/bts/btr/btc, bsf/bsr, movs/cmps/stos/lods/scas with rep, clc/stc/cmc/cld/std)",
+        "processor comparison only, no Coq specification: shld/shrd, cmpxchg, xadd, bswap, sahf, SSE subset (mov*ps/pd/dq*, movq/movd, pxor/por/paddq/psubq/psubb/pcmpeq*/pminub/punpckl*/pshufd/pslldq/psrldq/pmovmskb, movhpd/movlpd)",
+        "accepted by the lifter but not generated (no coverage): segment-override forms (fs/gs), 16-bit addressing in 32-bit mode, moffs forms of mov, far control transfers, int/syscall/sysenter/hlt/cli/sti/ud2/pause/prefetch (privileged or no architectural state change), lock prefixes, cmpxchg8b/16b is not accepted",
+        "x86 (32-bit) SSE forms are rejected by the lifter (no xmm registers in the x86 register table) -- outside the property",
+    ],
+    "level_text": "Per run, inside the Coq kernel: every generated encoding is lifted by the real lifter, its IL is run in the reference IL semantics from 6 machine states and compared "
+                  "with the host processor's result for the same bytes (amd64) and with the Coq ISA specification X86.step (both modes); a sort error at lift or run time is a failure. "
+                  "Unbounded Coq theorems for the shared helper layer (sub-register get/set, flag formulas) for all values; syntactic tie of a Gallina mirror to the dumped IL for the "
+                  "register/immediate forms of nine mnemonics. No all-states theorem per instruction form.",
+    "level_note": "Differential against the processor for breadth (sampled states), proof for the helper layer only. Trusted: Coq kernel + vm_compute, the CPU and the native runner, "
+                  "the ISA transcription (validated against the CPU each run), the harness encoder/printer, Exec/Sem.v.",
 }
